@@ -74,6 +74,38 @@ Proof.
   apply IH. now apply rerun_step_linv.
 Qed.
 
+(* ---------- the manual API ---------- *)
+
+Lemma manual_recurs_linv n : forall fuel tk s, LInv s -> LInv (fst (manual_recurs n fuel tk s)).
+Proof.
+  induction n as [|n IH]; intros fuel tk s L; cbn [manual_recurs]; [exact L|].
+  destruct (recur_pass tk fuel s 0%N) as [s1 r] eqn:E.
+  assert (L1 : LInv s1).
+  { destruct (linv_all tk fuel) as (_ & _ & _ & _ & _ & _ & _ & _ & _ & Irp & _). eapply Irp; eassumption. }
+  destruct r; try exact L1; apply IH; (eapply linv_same; [exact L1|apply same_tyme]).
+Qed.
+
+Theorem manual_run_linv n fuel (p : prog T) : LInv (manual_run n fuel p).
+Proof.
+  unfold manual_run.
+  destruct (enter_own (p_tock p) fuel (set_done (init_st p) 0%N None) 0%N (p_doers p)) as [s1 r] eqn:E.
+  assert (L1 : LInv s1).
+  { destruct (linv_all (p_tock p) fuel) as (_ & _ & _ & _ & _ & _ & Ieo & _).
+    eapply Ieo; [apply linv_done, linv_init|exact E]. }
+  assert (K : forall s, LInv s ->
+    LInv (let '(s2, bad) := manual_recurs n fuel (p_tock p) s in
+          if oof s2 then s2 else emit (close_own (p_tock p) fuel s2 0%N) (if bad then DoRaise else DoReturn) 0%N)).
+  { intros s L. pose proof (manual_recurs_linv n fuel (p_tock p) s L) as L2.
+    destruct (manual_recurs n fuel (p_tock p) s) as [s2 bad]. cbn [fst] in L2.
+    destruct (oof s2); [exact L2|]. apply linv_end; [destruct bad; reflexivity|exact L2]. }
+  destruct r; try (apply linv_end; [reflexivity|assumption]); try assumption;
+    apply K; (eapply linv_same; [exact L1|apply same_rlive]).
+Qed.
+
+Theorem manual_run_lifecycles n fuel (p : prog T) (j : id) :
+  life_ok (get_gen (manual_run n fuel p) j) (events j (manual_run n fuel p)).
+Proof. apply okj_life_ok, manual_run_linv. Qed.
+
 Theorem run_hist_lifecycles cycles fuel asyn (p : prog T) (h : list rerun) (j : id) :
   life_ok (get_gen (run_hist cycles fuel asyn p h) j) (events j (run_hist cycles fuel asyn p h)).
 Proof. apply okj_life_ok, run_hist_linv. Qed.
